@@ -229,6 +229,9 @@ class Gen:
     def build(self):
         """Returns (recipe, kind guess) of a new object built from the pool."""
         r = self.rng
+        if getattr(self, "pending", None) is not None:
+            rec, self.pending = self.pending, None
+            return rec
         k = r.random()
         if not self.kinds or k < (0.6 if self.meta_mode else 0.18):
             return self.leaf()
@@ -323,10 +326,14 @@ class Gen:
         if r.random() < 0.06:
             d = self.operand(("class+",) if neg else ("class-",))        # mixed -> documented exception
         sym = "|" if g < 0.6 else "-"
-        if r.random() < 0.12:
-            # the word class with / without is_global against the same (usually shared) operand: the two differ only in the
-            # flag, not in their class text, so anything keyed by the text mixes them up
-            d = ["named", "AnyButWordChar" if neg else "AnyWordChar", r.random() < 0.5]
+        if r.random() < 0.2:
+            # the word class with / without is_global against the same operand, one build after the other: the two differ
+            # only in the flag, not in their class text, so anything keyed by the text mixes them up
+            flag = r.random() < 0.5
+            wc = "AnyButWordChar" if neg else "AnyWordChar"
+            d = ["named", wc, flag]
+            twin = ["named", wc, not flag]
+            self.pending = ((["op", sym, twin, c] if r.random() < 0.2 else ["op", sym, c, twin]), ("class-" if neg else "class+"))
         if r.random() < 0.15:
             c, d = d, c
         return ["op", sym, c, d], ("class-" if neg else "class+")
